@@ -149,6 +149,11 @@ pub fn c17(ctx: &mut Ctx, acc: &mut Acc) -> i32 {
         for idx in 0..n {
             let mut rng = ctx.rng_for(0xC17, id, idx);
             let v = gen_val(&ty, &mut rng, &gen);
+            // under a lane with TZ set, some wall-clock times cannot be built in the zone at all: no value, nothing to encode
+            if ctx.extra.contains_key("tz") && !matches!(monitors::guarded(|| drop(s.make(&v)), |_| None), monitors::Outcome::Done(())) {
+                acc.count("local_times_the_zone_cannot_represent_not_counted");
+                continue;
+            }
             let x = s.make(&v);
             let got = sbase::enc(s, x.as_ref(), if idx % 2 == 0 { Sink::ToByteVec } else { Sink::ToBytes });
             // the reference encoder knows which documented error, if any, the value calls for
@@ -209,6 +214,13 @@ fn extremes(acc: &mut Acc) {
         let off = FixedOffset::east_opt(secs).unwrap();
         let dt: DateTime<FixedOffset> = off.from_utc_datetime(&utc.naive_utc());
         judge(acc, &format!("DateTime<FixedOffset>:{name}"), &ser(&dt), None, J::obj().with("utc", J::s(format!("{:?}", utc.timestamp()))).with("offset", J::Int(secs as i64)));
+    }
+    // the same through the process time zone (lanes with TZ set east / west of UTC; nothing to see under TZ=UTC)
+    for (n, utc) in [("max_utc", max_utc), ("min_utc", min_utc)] {
+        let dt: DateTime<chrono::Local> = chrono::Local.from_utc_datetime(&utc.naive_utc());
+        let off = chrono::Offset::fix(dt.offset()).local_minus_utc();
+        let side = if off > 0 { "east" } else if off < 0 { "west" } else { "offset" };
+        judge(acc, &format!("DateTime<Local>:{n}_{side}_{}", off.abs()), &ser(&dt), None, J::obj().with("local_minus_utc", J::Int(off as i64)));
     }
     for tz in [chrono_tz::Pacific::Kiritimati, chrono_tz::Etc::GMTPlus12, chrono_tz::UTC] {
         for (n, utc) in [("max", max_utc), ("min", min_utc)] {
